@@ -329,6 +329,15 @@ func (p *Planner) tryOptimizeJoinDirection(node *invertibleTypeJoin, parentPlan 
 		// If the relation is one sided we cannot invert the join, so return early
 		return nil
 	}
+	if childTop, ok := node.childSide.plan.(*selectTopNode); ok &&
+		(childTop.order != nil || childTop.limit != nil || childTop.group != nil) {
+		// An inverted join drives the child plan in two roles: as the outer iterator over the indexed
+		// child documents and, re-initialised for every parent, as the fetcher of that parent's children.
+		// Order, limit and group nodes of the child plan keep state between Next calls and cannot serve
+		// both roles (re-initialising them ends the outer iteration after the first parent, and a limit
+		// would cut the outer iteration instead of each parent's list), so keep the join direction.
+		return nil
+	}
 	optimized, err := p.tryOptimizeJoinDirectionByFilter(node, parentPlan)
 	if err != nil {
 		return err
